@@ -115,6 +115,20 @@ func propC02(run *Run, n int) {
 		dw := implDiff(ch.o, a.Wire(), b.Wire())
 		addC02Case(run, "diff:"+ch.label, dw, a.Wire(), b.Wire(), ch.o.Wire())
 	}
+	// chained use: the diff of a document RETURNED BY Patch (whose nodes were built by the library, not by a reader)
+	// against a third document must render like the same diff built from decoded values, and its text must carry it
+	for i := 0; i < n/60+10; i++ {
+		ch := choices[r.Intn(len(choices))]
+		cfg := ch.cfg()
+		cfg.AllowNull = true
+		cfg.ScalarBias = 3
+		a, b := cfg.Pair(r)
+		c := cfg.Mutate(r, b, 3)
+		if a.K == KVoid || b.K == KVoid || c.K == KVoid {
+			continue
+		}
+		addC02Chained(run, ch.o, ch.label, a, b, c)
+	}
 	// long lines: a value whose JSON text makes a `-`, `+` or context line of about 4 KiB, just below / at /
 	// above 64 KiB (the default token limit of bufio.Scanner) and far beyond, followed by further hunks
 	for _, size := range []int{4090, 65531, 65532, 65536, 70000, 300000} {
@@ -288,6 +302,57 @@ func addC02Case(run *Run, kind, dw, aw, bw, ow string) {
 	run.Add(c)
 }
 
+// addC02Chained: r = a.Patch(a.Diff(b)); d = r.Diff(c) — the in-memory diff d holds nodes the LIBRARY made (copies handed
+// out by Patch). Its rendering must be the rendering of the same diff rebuilt from its encoding (a text depends on the
+// values only), and applying the text read back to r must give what applying d gives.
+func addC02Chained(run *Run, o OptSet, label string, a, b, c3 *Val) {
+	aw, bw, cw := a.Wire(), b.Wire(), c3.Wire()
+	c := Case{Recipe: Recipe{"c02chain", []string{o.Wire(), aw, bw, cw}}, Desc: map[string]string{"options": o.Name(), "a": a.Human(), "b": b.Human(), "c": c3.Human()}}
+	c.Sig = "chain|" + o.Wire() + aw + bw + cw
+	verdict := "ok"
+	res, _ := safely(func() string {
+		an := mustNode(aw)
+		r1, err := an.Patch(an.Diff(mustNode(bw), o.Go()...))
+		if err != nil || r1 == nil {
+			return "done"
+		}
+		rw := jd.VerifEncodeNode(r1)
+		d := r1.Diff(mustNode(cw), o.Go()...)
+		c.Nontrivial = len(d) > 0
+		dw := jd.VerifEncodeDiff(d)
+		text := d.Render()
+		c.Desc["text"] = text
+		if ref := mustDiff(dw).Render(); ref != text {
+			verdict = "fail the diff of a document returned by Patch renders as " + short(text) + " but the same diff rebuilt from its values renders as " + short(ref)
+			return "done"
+		}
+		if stripAnsi(d.Render(jd.COLOR)) != text {
+			verdict = "fail colour rendering differs from the plain rendering by more than ANSI escape sequences"
+			return "done"
+		}
+		d2, err := jd.ReadDiffString(text)
+		if err != nil {
+			verdict = "fail the rendered diff cannot be read back: " + err.Error()
+			return "done"
+		}
+		p1 := implPatch(rw, dw)
+		p2 := implPatch(rw, jd.VerifEncodeDiff(d2))
+		if untagWire(p1) != untagWire(p2) {
+			verdict = "fail the re-read diff has a different effect on the patched document: " + short(p1) + " vs " + short(p2)
+		}
+		return "done"
+	})
+	if res == "panic" {
+		verdict = "ok panic-elsewhere"
+	}
+	if strings.HasPrefix(verdict, "ok") {
+		verdict = "ok"
+	}
+	c.Probes = append(c.Probes, Probe{Kind: "direct", Rel: "C02 the diff of a document returned by Patch renders by its values and its text carries it", Want: verdict})
+	run.Count("kind:chained-" + label)
+	run.Add(c)
+}
+
 func mustReadDiff(text string) jd.Diff {
 	d, err := jd.ReadDiffString(text)
 	if err != nil {
@@ -361,6 +426,12 @@ func addJsonCodecProbes(c *Case, v *Val) {
 		Probe{Kind: "corr", Rel: "Json() = jsonM", Line: fmt.Sprintf("json %s %s", nd, w), Want: "ok " + textWire(text)},
 		Probe{Kind: "corr", Rel: "ReadJsonString = readJsonM", Line: fmt.Sprintf("readjson %s %s", nd, textWire(text)), Want: back},
 	)
+}
+
+func init() {
+	recipes["c02chain"] = func(run *Run, a []string) {
+		addC02Chained(run, mustOpts(a[0]), "corpus", mustVal(a[1]), mustVal(a[2]), mustVal(a[3]))
+	}
 }
 
 func init() {
